@@ -182,7 +182,7 @@ func c26(c *core.Ctx) {
 
 	balanceRules(c, "C26.balance")
 
-	rO := c.Rule("C26.oversize", "entries the storage format cannot encode are rejected before they are buffered (shared with C01.narrow)", 2)
+	rO := c.Rule("C26.oversize", "entries the storage format cannot encode are rejected before they are buffered (shared with C01.narrow)", 1)
 	validators := entryValidators(c)
 	addFn := c.Fn(pkgV2 + ".WriteBuffer.Add")
 	for _, f := range p.FuncsIn(pkgV2) {
@@ -198,9 +198,12 @@ func c26(c *core.Ctx) {
 			// a validator call on the same entry precedes the Add in the same function
 			ok := false
 			ent := core.ObjOf(info, call.Args[0])
+			fl := core.NewFlow(p, info, f.Decl.Body)
 			core.Calls(f.Decl.Body, false, func(c2 *ast.CallExpr) {
-				if fo := core.Callee(info, c2); fo != nil && validators[fo] && core.ObjOf(info, core.RecvExpr(c2)) == ent && c2.Pos() < call.Pos() {
-					ok = true
+				if fo := core.Callee(info, c2); fo != nil && validators[fo] && core.ObjOf(info, core.RecvExpr(c2)) == ent {
+					if good, _ := fl.OnlyAfterSuccess(f.Decl.Body, c2, call); good {
+						ok = true
+					}
 				}
 			})
 			rO.Check(ok, f.Key+":validate-before-Add", call.Pos(), "validated", "oversized keys reach the write buffer")
